@@ -104,6 +104,11 @@ fn resp_rust(r: RespTy, params: &[String]) -> String {
     }
 }
 
+/// Does the handler's signature spell the twin of its explicitly declared response type?
+pub fn resp_twin(m: &Method) -> bool {
+    m.resp_explicit && !matches!(m.resp, RespTy::Param(_)) && m.name.len() % 2 == 1
+}
+
 fn ctx_ty(kind: Kind, q: &str) -> String {
     if q == "Empty" {
         kind.ctx().to_string()
@@ -141,7 +146,17 @@ fn sig(m: &Method, kind: Kind, params: &[String], assocs: &[String], c: &str, q:
     let (attr, ret) = if kind == Kind::Query {
         let r = resp_rust(m.resp, if assocs.is_empty() { params } else { assocs });
         if m.resp_explicit {
-            (format!("#[sv::msg(query, resp={r})]"), format!("{r}Result<{err}>"))
+            // the attribute takes an identifier: `Self::A0` is named `A0`
+            let ident = r.rsplit("::").next().unwrap_or(&r).to_string();
+            if matches!(m.resp, RespTy::Param(_)) {
+                // response is a type parameter behind a generic result alias
+                (format!("#[sv::msg(query, resp={ident})]"), format!("GenResult<{r}, {err}>"))
+            } else if resp_twin(m) {
+                // explicit published type, signature spells an internal twin type
+                (format!("#[sv::msg(query, resp={r})]"), format!("Result<{r}Twin, {err}>"))
+            } else {
+                (format!("#[sv::msg(query, resp={r})]"), format!("{r}Result<{err}>"))
+            }
         } else {
             ("#[sv::msg(query)]".to_string(), format!("Result<{r}, {err}>"))
         }
@@ -320,7 +335,7 @@ pub fn contract_method_texts(p: &Program) -> Vec<String> {
         let e = if custom_err { "CErr" } else { "StdError" };
         let sg = sig(m, kind, &params, &[], c, q, e, true);
         let id = format!("ctr::{}::{}", kind.attr(), m.name);
-        let resp_conc = resp_rust(m.resp, &params);
+        let resp_conc = if resp_twin(m) { format!("{}Twin", resp_rust(m.resp, &params)) } else { resp_rust(m.resp, &params) };
         let above = m.name.len() % 2 == 0;
         if !above {
             writeln!(s, "    {}", sg.attr).unwrap();
@@ -450,9 +465,12 @@ pub fn render_source(p: &Program, o: &RenderOpts) -> String {
             // in the impl all types are concrete
             let mut m2 = m.clone();
             m2.resp_explicit = false;
-            let sg = sig(&m2, kind, &[], &conc, ic, iq, e, false);
+            let mut sg = sig(&m2, kind, &[], &conc, ic, iq, e, false);
+            if resp_twin(m) {
+                sg.ret = format!("Result<{}Twin, {e}>", resp_rust(m.resp, &conc));
+            }
             let id = format!("{}::{}::{}", i.module, kind.attr(), m.name);
-            let resp_conc = resp_rust(m.resp, &conc);
+            let resp_conc = if resp_twin(m) { format!("{}Twin", resp_rust(m.resp, &conc)) } else { resp_rust(m.resp, &conc) };
             writeln!(s, "    fn {}({}) -> {} {{", m.name, sg.params, sg.ret).unwrap();
             writeln!(s, "        {}", echo_body(p, m, kind, &id, ic, iq, custom_err, &resp_conc)).unwrap();
             writeln!(s, "    }}").unwrap();
